@@ -58,7 +58,7 @@ func c05(c *Ctx) {
 		"manifest.Version == 1",
 		"manifest.PreviousIndex == manifest.BaseOffset",
 	)
-	c.CallShape("R3-derive", derive, "pkg/quorumlog.digestProposalEntry", "pkg/quorumlog.digestProposalEntry(entry, *)")
+	c.CallShape("R3-derive", derive, "pkg/quorumlog.digestProposalEntry", "pkg/quorumlog.digestProposalEntry(*, *)")
 	verify := c.Fn("pkg/quorumlog.VerifyEntry")
 	c.GuardTrue("R3-verify", verify, 0,
 		"pkg/quorumlog.digestProposalEntry(entry, record) == entry.Digest",
